@@ -5,8 +5,8 @@ calls `t(k, e)` at operand positions.  The same text is also run on recording ob
 recording object), which needs one discipline: the *receiver* of every operator (left operand, operand of a unary
 operator, subscripted / attribute base, right operand of `in`, callee) must be recording-valued, otherwise the
 operation would be invisible on the tape.  The generator tracks a kind per expression:
-   'R' definitely recording-valued in instrumented mode,  'D' native dict display,  'C' other native container,
-   'N' anything else / unknown
+   'R' definitely recording-valued in instrumented mode,  'D' native dict display,  'C' native list/tuple,
+   'S' native set (its iteration order is not the model's, so it is never iterated unwrapped),  'N' anything else / unknown
 and wraps a receiver of another kind in a tracer call.  Everything random comes from the given rng.
 """
 
@@ -77,9 +77,29 @@ class Gen:
             return self.leaf()
         form = rng.choices(
             ["binop", "unary", "boolop", "compare", "ifexp", "call", "list", "tuple", "set", "dict", "subscript", "attr",
-             "walrus", "listcomp", "setcomp", "dictcomp", "tracer"],
-            [14, 6, 9, 12, 6, 9, 5, 5, 3, 6, 8, 3, 3, 4, 2, 2, 6])[0]
+             "walrus", "listcomp", "setcomp", "dictcomp", "tracer", "fstring"],
+            [14, 6, 9, 12, 6, 9, 5, 5, 3, 6, 8, 3, 3, 4, 2, 2, 6, 4])[0]
         return getattr(self, "e_" + form)(d + 1)
+
+    def e_fstring(self, d):
+        """f-string: literal text and replacement fields; the formatted value is a receiver (format() is asked of it);
+        a conversion (!r / !s) only without a format spec (formatting the converted str is str's own business)"""
+        parts = []
+        for _ in range(self.rng.choice([1, 1, 2, 3])):
+            if self.rng.random() < 0.35:
+                parts.append(self.rng.choice(["a", "<", " ", "x=", "%", "{{", "}}"]))
+                continue
+            val = self.as_r(self.expr(d + 1))
+            r = self.rng.random()
+            if r < 0.35:
+                parts.append("{" + val + self.rng.choice(["!r", "!s"]) + "}")
+            elif r < 0.6:
+                parts.append("{" + val + "}")
+            elif r < 0.85:
+                parts.append("{" + val + ":" + self.rng.choice([">3", "<4", "03", ".1f", "x", "^5", "d", "q"]) + "}")
+            else:
+                parts.append("{" + val + ":{" + self.as_r(self.expr(d + 2)) + "}}")
+        return "f'" + "".join(parts) + "'", "N"
 
     def e_tracer(self, d):
         return self.wrap(self.expr(d)[0]), "R"
@@ -138,7 +158,7 @@ class Gen:
     def e_ifexp(self, d):
         c = self.expr(d)[0]
         a, b = self.expr(d), self.expr(d)
-        kind = a[1] if a[1] == b[1] and a[1] in ("R", "D", "C") else "N"
+        kind = a[1] if a[1] == b[1] and a[1] in ("R", "D", "C", "S") else "N"
         return f"({a[0]} if {c} else {b[0]})", kind
 
     def args(self, d, allow_kw=True):
@@ -209,7 +229,7 @@ class Gen:
         parts = self.elts(d, raw_keys=True)
         if not parts:
             parts = [self.hashable_elt(d)]
-        return "{" + ", ".join(parts) + "}", "C"
+        return "{" + ", ".join(parts) + "}", "S"
 
     def e_dict(self, d):
         parts = []
@@ -299,7 +319,7 @@ class Gen:
         cls = self.comp_clauses(d)
         elt = self.hashable_elt(d + 1)
         self.comp_done(cls)
-        return "{" + f"{elt} " + " ".join(c for c, _s in cls) + "}", "C"
+        return "{" + f"{elt} " + " ".join(c for c, _s in cls) + "}", "S"
 
     def e_dictcomp(self, d):
         cls = self.comp_clauses(d)
@@ -462,6 +482,8 @@ def table_cases():
             cases.append({"src": f"x = {op}t(1, {first[a]})", "init": {}, "mode": "native", "seed": 0, "table": f"unary {op.strip()} {a}"})
         cases.append({"src": f"x = t(1, {first[a]})[t(2, 0):t(3, 2)]\ny = t(4, {first[a]})[::t(5, 2)]", "init": {}, "mode": "native",
                       "seed": 0, "table": f"slice {a}"})
+        cases.append({"src": f"x = f'{{t(1, {first[a]})}}|{{t(2, {first[a]})!r}}|{{t(3, {first[a]})!s}}|{{t(4, {first[a]}):>4}}|{{t(5, {first[a]}):{{t(6, 3)}}}}'",
+                      "init": {}, "mode": "native", "seed": 0, "table": f"fstring {a}"})
         cases.append({"src": f"x, y = t(1, {first[a]})\n", "init": {}, "mode": "native", "seed": 0, "table": f"unpack2 {a}"})
         cases.append({"src": f"x, *y = t(1, {first[a]})\n", "init": {}, "mode": "native", "seed": 0, "table": f"unpack* {a}"})
         cases.append({"src": f"x = [*t(1, {first[a]}), t(2, 1)]\ny = f(*t(3, {first[a]}))", "init": {"f": "<callable>"}, "mode": "native",
